@@ -20,9 +20,14 @@ tvars == <<obj, ret, l, bad>>
 
 \* observed getter result of claim c matches one of the spec's admissible results
 GetOK(o, c, r) == ObsRet(r) \in GetterRets(o, c)
+\* the getters of the components handed out by a successful GetSoftwareComponents
+CompGettersOK(o, e) == e.get["sw"].ok =>
+  /\ Len(e.cget) = Len(o.sw.l)
+  /\ \A i \in 1..Len(e.cget) : \A f \in CompFields : ObsRet(e.cget[i][f]) \in CompGetRets(o.sw.l[i], f)
 ReadOK(e) ==
   /\ ObsRet(e.vret) \in ValidateRets(e.pre)
   /\ \A c \in IClaims : GetOK(e.pre, c, e.get[c])
+  /\ CompGettersOK(e.pre, e)
   /\ e.post = e.pre /\ e.snapEq /\ e.encEq /\ e.repEq           \* reading changes nothing, repeats identically
 \* error returned by a failed call: one of the admissible classes, exactly one class
 ErrOK(r, admissible) == ~r.ok /\ Cardinality(SeqToSet(r.cls)) = 1 /\ SeqToSet(r.cls) \subseteq admissible
